@@ -11,15 +11,30 @@ from ..core import frac
 LEVEL = "proof"
 RULE = ("one call of one estimator / smoother per case, plus the same call on the shifted (a+c) and rescaled (k*a) "
         "vector for the invariance clauses. vectors of length 0..400: dyadic grids (float arithmetic exact), random "
-        "floats, few distinct values (ties), one extreme outlier, all-equal, NaN-sprinkled (estimators only); weights: "
-        "equal (1, 0.1, 1/3, random), random, one dominant, with zeros, with NaN; widths: dyadic and decimal fractions, "
-        "integers below / at / above the length, invalid widths (error branch). non-trivial = at least 3 distinct "
-        "finite values (smoothers: non-constant signal of length >= 3); distinct by hash of the case")
+        "floats, few distinct values (ties), one extreme outlier, all-equal, tiny spread (around the biweight floor "
+        "epsilon = 0.001 on the scale), NaN-sprinkled (estimators only); Qn also at n = 10, 11, 399, 400. weights: "
+        "equal (1, 0.1, 1/3, random), random, one dominant, with zeros, with NaN (all three weighted estimators; also "
+        "together with NaN values); widths: dyadic and decimal fractions, integers below / at / above the length "
+        "(Python or numpy scalars), invalid widths (error branch), the width chosen by the real guess_window_size "
+        "(kaiser(x) without a width; savgol(x, guess_window_size(x, w), w) as smooth_log2 calls it). options: "
+        "biweight location / midvariance from the default start and from an explicit `initial` (0, 0.0, a data value, "
+        "mid-range, an end; for the midvariance also outside the data), MAD / weighted MAD with scale_to_sd=False "
+        "(times 1.4826 by the harness), savgol with window_width / order / n_iter given or left to their defaults. "
+        "every vector is handed over in one of 11 representations with the same values: fresh float64 ndarray (half "
+        "of the cases), list, tuple, pandas Series (default index; filtered subset of a longer Series; permuted "
+        "labels), read-only ndarray, strided view, int64 (integral values), float32 (when exact), object column "
+        "with None for NaN; values and weights independently; the three calls of a case share one weights object "
+        "in 30% of the weighted cases (incl. NaN weights in a read-only vector and integer-typed smoother weights, "
+        "findings AU / AT, fixed); not generated: float32 / object weights for the weighted Savitzky-Golay. "
+        "non-trivial = at least 3 distinct finite values (smoothers: non-constant signal of length >= 3); "
+        "distinct by hash of the case")
 EXHAUSTIVE = {"quick": False, "thorough": False}
 ASSUMPTIONS = [
     "weights are >= 0 with a positive total (the cumulative weight is monotone, so searchsorted = first index)",
     "weighted_median: fewer than 2^26 values (the rounding allowance midpoint*n*eps stays below half a weight)",
-    "smoothers: finite input without NaN; window_width odd",
+    "smoothers: finite input without NaN; window_width odd; kaiser without weights and without do_fit_edges",
+    "biweight estimators: c, epsilon, max_iter at their defaults; an explicit `initial` for the location lies "
+    "within the data range; options are passed by keyword",
     "float results are compared with the exact model value at 1e-9 relative tolerance; a case whose model run passes "
     "within 1e-9 of a comparison (mask |u|=1, convergence test, cumulative weight = midpoint +- allowance, "
     "ceil(n*width/2)) is skipped as knife-edge unless all inputs are dyadic",
@@ -32,7 +47,11 @@ TRUSTED_EXTRA = [
     "pandas rolling(center=True).median on a full odd window = middle order statistic; np.percentile linear method",
     "sqrt: the model returns the radicand, the harness compares with math.sqrt of it; sqrt(pi) of gapper_scale "
     "is divided out by the harness",
-    "guess_window_size (float power, used when kaiser is called without a width) is outside the model",
+    "guess_window_size (float power, used when kaiser is called without a width) is outside the model: the harness "
+    "asks the real function for the width (it must be an integer) and gives that width to the model",
+    "scale_to_sd=False: the harness multiplies the raw MAD by 1.4826 and checks it like the default call",
+    "input representations (list, Series, int64, float32, ...) are built by the harness from the float64 values "
+    "the model is given",
 ]
 
 PREFIX = os.environ.get("VERIF_C19_MODEL", "") == "prefix"   # model of the unrepaired functions
@@ -65,9 +84,14 @@ def gen_len(rng, cap=400):
 
 def gen_vec(rng, n, kind=None):
     """(values, exact) -- exact = all values on a coarse dyadic grid"""
-    kind = kind or rng.choice(["dyadic", "dyadic", "float", "float", "ties", "outlier", "const", "small", "dyadic-outlier"])
+    kind = kind or rng.choice(["dyadic", "dyadic", "float", "float", "ties", "outlier", "const", "small", "dyadic-outlier", "tiny"])
     if kind == "dyadic":
         return [_dy(rng) for _ in range(n)], True
+    if kind == "tiny":
+        # spread of the order of the biweight estimators' floor on the scale (epsilon = 0.001): c * MAD falls on
+        # either side of it while the deviations are not zero
+        base, step, m = rng.choice([0.0, 1.0, -2.5, 0.375]), 2.0 ** -rng.randint(11, 16), rng.choice([2, 4, 8, 16])
+        return [base + rng.randint(-m, m) * step for _ in range(n)], True
     if kind == "small":
         return [float(rng.randint(0, 6)) for _ in range(n)], True
     if kind == "float":
@@ -146,6 +170,74 @@ def gen_scale(rng, exact):
     return rng.choice([3.0, 0.1, rng.uniform(0.05, 20)])
 
 
+# input representations (audit): the callers in /repo hand these functions pandas Series (fix.py: df["log2"];
+# segfilters.py: cnarr["cn"], cnarr["weight"] of a FILTERED table, i.e. index labels != positions), `.values` of a
+# Series (read-only under pandas 3 copy-on-write), lists, integer columns (autobin: rc_table.length)
+REPS = ["list", "tuple", "series", "series-sub", "series-perm", "readonly", "strided", "int", "float32", "object"]
+# np.asarray(...) of these is a read-only view of the caller's data
+READONLY_REPS = ("series", "series-sub", "series-perm", "readonly")
+
+
+def _integral(v):
+    return all(x is not None and float(x).is_integer() for x in v)
+
+
+def gen_rep(rng, p_plain=0.5):
+    return "ndarray" if rng.random() < p_plain else rng.choice(REPS)
+
+
+def add_reps(rng, i, weights_key="w", smoother=False):
+    """choose how the vectors of the case are handed to the real code (values unchanged)"""
+    i["rep"] = gen_rep(rng)
+    i["rseed"] = rng.randrange(1 << 30)
+    vkey = "x" if smoother else "a"
+    if i["rep"] == "int" and not _integral(i[vkey]):
+        # an integer column needs integral values: round them (keeps ties and the outlier) or take another container
+        if None not in i[vkey] and "initial" not in i and rng.random() < 0.7:
+            i[vkey] = [float(round(v)) for v in i[vkey]]
+        else:
+            i["rep"] = rng.choice([r for r in REPS if r != "int"])
+    if weights_key in i:
+        i["wrep"] = i["rep"] if rng.random() < 0.4 else gen_rep(rng, 0.3)
+        if i["wrep"] == "int" and not smoother and not _integral(i[weights_key]):
+            if None not in i[weights_key] and rng.random() < 0.7:
+                i[weights_key] = [float(math.ceil(v)) for v in i[weights_key]]   # zeros stay, the total stays positive
+            else:
+                i["wrep"] = rng.choice([r for r in REPS if r != "int"])
+        if smoother and i["wrep"] in ("float32", "object"):
+            # (integer-typed smoother weights: finding AT, fixed in /repo acb9790, are generated.)  float32 weights are
+            # rolled off in double precision now but were single precision inputs (2e-9 off the exact model), an
+            # object column turns the NaN of open finding P (window weight sum 0) into a ZeroDivisionError
+            i["wrep"] = "list"
+        # (NaN weights in a read-only vector: finding AU, fixed in /repo b1a8990, are generated)
+        # the three calls of a case (plain, shifted, rescaled) get the same weights OBJECT
+        i["reuse_w"] = rng.random() < 0.3
+    return i
+
+
+def gen_initial(rng, a, name):
+    """explicit starting point for the biweight estimators, as reference.py (`initial=i`), hmm.py (`initial=0`)
+    and cnary.py pass it.  For the location it is taken inside the data range (the range clause is about the
+    default start, the median; from a start outside the data the estimator returns that start)."""
+    clean = [v for v in a if v is not None]
+    if len(clean) < 2:
+        return None
+    lo, hi = min(clean), max(clean)
+    if lo == hi:
+        return lo   # constant data: "zero for constant data" is about the spread around the data's own centre
+    kind = rng.choice(["zero", "zero", "izero", "value", "value", "mid", "edge", "off"])
+    if kind in ("zero", "izero") and (name == "bivar" or lo <= 0 <= hi):
+        return 0 if kind == "izero" else 0.0
+    if kind == "mid":
+        m = round((lo + hi) / 2 * 16) / 16
+        return m if lo <= m <= hi else lo
+    if kind == "edge":
+        return rng.choice([lo, hi])
+    if kind == "off" and name == "bivar":
+        return round((hi + (hi - lo) * rng.choice([0.25, 1.0, -1.5])) * 16) / 16
+    return rng.choice(clean)
+
+
 def coarse(rng, a, n_full=16):
     """exact arithmetic on the biweight iteration multiplies the digits of the input about tenfold per step:
     most vectors are put on a dyadic grid of 2..8 fractional bits, full doubles are kept for short vectors"""
@@ -155,42 +247,70 @@ def coarse(rng, a, n_full=16):
     return [None if v is None else round(v * k) / k for v in a]
 
 
-def loc_case(rng, name, nmax=400):
-    n = gen_len(rng, nmax)
-    a, ex = gen_vec(rng, n)
-    if name == "biweight_location":
+def nan_weights(rng, w):
+    w = [None if rng.random() < 0.2 else x for x in w]
+    if not any(x for x in w if x):
+        w[0] = 1.0
+    return w
+
+
+def loc_case(rng, name, nmax=400, n=None):
+    n = gen_len(rng, nmax) if n is None else n
+    a, ex = gen_vec(rng, n) if n else ([], True)
+    if name == "biweight_location" and rng.random() < 0.12:
+        a, ex = gen_vec(rng, rng.randint(3, 24), "tiny")
+    elif name == "biweight_location":
         a = coarse(rng, a)
     tag = "plain"
     if rng.random() < 0.15:
         a, tag = add_nans(rng, a), "nan"
     i = {"name": name, "a": a, "c": gen_shift(rng, ex), "exact": ex}
     if name == "weighted_median":
-        w, exw = gen_weights(rng, n)
-        if rng.random() < 0.05:
-            w = [None if rng.random() < 0.2 else x for x in w]
-            if not any(x for x in w if x):
-                w[0] = 1.0
+        w, exw = gen_weights(rng, n) if n else ([], True)
+        if n and rng.random() < 0.06:
+            w = nan_weights(rng, w)
             tag = "nan"
         i["w"] = w
         i["exact"] = ex and exw
     if name == "biweight_location":
         i["exact"] = False
+        if rng.random() < 0.25:
+            init = gen_initial(rng, a, name)
+            if init is not None:
+                i["initial"] = init
+                tag += "-initial"
+    add_reps(rng, i)
     return {"op": "loc", "tag": f"{name}-{tag}", "in": i}
 
 
-def scale_case(rng, name, nmax=400):
-    n = gen_len(rng, nmax)
-    a, ex = gen_vec(rng, n)
-    if name == "bivar":
+def scale_case(rng, name, nmax=400, n=None):
+    n = gen_len(rng, nmax) if n is None else n
+    a, ex = gen_vec(rng, n) if n else ([], True)
+    if name == "bivar" and rng.random() < 0.25:
+        a, ex = gen_vec(rng, rng.randint(3, 12), "tiny")
+    elif name == "bivar":
         a = coarse(rng, a, 10)
     tag = "plain"
     if rng.random() < 0.15:
         a, tag = add_nans(rng, a), "nan"
     i = {"name": name, "a": a, "c": gen_shift(rng, ex), "k": gen_scale(rng, ex), "exact": ex and name not in ("bivar", "wstd")}
     if name in ("wmad", "wstd"):
-        w, exw = gen_weights(rng, n)
+        w, exw = gen_weights(rng, n) if n else ([], True)
+        if n and rng.random() < 0.06:
+            w = nan_weights(rng, w)
+            tag = "nan"
         i["w"] = w
         i["exact"] = i["exact"] and exw
+    if name == "bivar" and rng.random() < 0.4:
+        init = gen_initial(rng, a, name)
+        if init is not None:
+            i["initial"] = init
+            tag += "-initial"
+    if name in ("mad", "wmad") and rng.random() < 0.15:
+        # scale_to_sd=False: the raw MAD; the harness multiplies it by 1.4826 before it goes to the model / spec
+        i["sd"] = False
+        tag += "-raw"
+    add_reps(rng, i)
     return {"op": "scale", "tag": f"{name}-{tag}", "in": i}
 
 
@@ -236,9 +356,14 @@ def smooth_case(rng, name, nmax=400):
     if name in ("savgol", "savgol_w"):
         if rng.random() < 0.3:
             i["width"], i["malformed"] = None, False
-        i["window_width"] = rng.choice([7, 7, 7, 3, 5, 9, 11])
-        i["order"] = rng.choice([3, 3, 3, 1, 2, 4])
-        i["n_iter"] = rng.choice([1, 1, 1, 2, 3]) if (n <= 30 and name == "savgol") or n <= 12 else 1
+        if rng.random() < 0.25:
+            # the call as cnary.py / fix.py write it: savgol(x, width[, weights]) with window_width, order and
+            # n_iter left to their defaults (the model reads the defaults from the source, run_impl from the signature)
+            i["implicit"] = True
+        else:
+            i["window_width"] = rng.choice([7, 7, 7, 3, 5, 9, 11])
+            i["order"] = rng.choice([3, 3, 3, 1, 2, 4])
+            i["n_iter"] = rng.choice([1, 1, 1, 2, 3]) if (n <= 30 and name == "savgol") or n <= 12 else 1
     if name == "savgol_w":
         kind = rng.choice(["equal1", "random", "random", "dominant", "dyadic", "zeros-sparse", "positive-wide"])
         if kind == "positive-wide" and not _finding_registered("savgol_zero_denominator"):
@@ -252,7 +377,15 @@ def smooth_case(rng, name, nmax=400):
         else:
             w, _ = gen_weights(rng, n, kind)
         i["w"] = w
-    return {"op": "smooth", "tag": f"{name}-{'malformed' if i['malformed'] else ('short' if n < 3 else 'plain')}", "in": i}
+    if name != "rolling_median" and n >= 2 and rng.random() < (0.2 if name == "kaiser" else 0.1):
+        # width chosen by the real guess_window_size: kaiser(x) without a width; savgol(x, guess_window_size(x, w), w)
+        # as CopyNumArray.smooth_log2 calls it.  run_impl reports the width, which is what the model is given.
+        i["guess"], i["width"], i["malformed"] = True, None, False
+    elif not i["malformed"] and i["width"] is not None and rng.random() < 0.15:
+        i["wtype"] = "np"   # width as a numpy scalar (np.int64 / np.float64)
+    add_reps(rng, i, smoother=True)
+    tag = "malformed" if i["malformed"] else ("short" if n < 3 else "plain")
+    return {"op": "smooth", "tag": f"{name}-{tag}{'-guess' if i.get('guess') else ''}", "in": i}
 
 
 def corpus():
@@ -275,6 +408,28 @@ def corpus():
         {"op": "loc", "tag": "corpus-U", "in": {"name": "modal_location", "a": [1.0, 1.0, 1.0], "c": 1.0, "exact": True}},
         # V: rolling median of a single value
         {"op": "smooth", "tag": "corpus-V", "in": {"name": "rolling_median", "x": [5.0], "width": 3, "malformed": False, "exact": True}},
+        # empty vectors (the decorators' first exit; length 0 is below the property's quantifier, the model covers it)
+        {"op": "loc", "tag": "corpus-empty", "in": {"name": "weighted_median", "a": [], "w": [], "c": 1.0, "exact": True}},
+        {"op": "loc", "tag": "corpus-empty", "in": {"name": "weighted_median", "a": [], "w": [], "c": 1.0, "exact": True, "rep": "list", "wrep": "series"}},
+        {"op": "loc", "tag": "corpus-empty", "in": {"name": "biweight_location", "a": [], "c": 1.0, "exact": True, "rep": "list"}},
+        {"op": "loc", "tag": "corpus-empty", "in": {"name": "modal_location", "a": [], "c": 1.0, "exact": True}},
+        {"op": "scale", "tag": "corpus-empty", "in": {"name": "wmad", "a": [], "w": [], "c": 1.0, "k": 2.0, "exact": True}},
+        {"op": "scale", "tag": "corpus-empty", "in": {"name": "wstd", "a": [], "w": [], "c": 1.0, "k": 2.0, "exact": True, "rep": "series", "wrep": "series"}},
+        {"op": "scale", "tag": "corpus-empty", "in": {"name": "mad", "a": [], "c": 1.0, "k": 2.0, "exact": True}},
+        {"op": "scale", "tag": "corpus-empty", "in": {"name": "qn", "a": [], "c": 1.0, "k": 2.0, "exact": True, "rep": "tuple"}},
+        {"op": "smooth", "tag": "corpus-empty", "in": {"name": "rolling_median", "x": [], "width": 3, "malformed": False, "exact": True}},
+        {"op": "smooth", "tag": "corpus-empty", "in": {"name": "kaiser", "x": [], "width": 0.5, "malformed": False, "exact": True}},
+        {"op": "smooth", "tag": "corpus-empty", "in": {"name": "savgol", "x": [], "width": None, "malformed": False, "exact": True, "implicit": True}},
+        # one value left after the NaN are dropped, the vector being a pandas Series whose labels are not 0..n-1
+        # (the shortcut `a[0]` must be positional)
+        {"op": "loc", "tag": "corpus-series-one", "in": {"name": "biweight_location", "a": [None, 5.0, None], "c": 1.0, "exact": True, "rep": "series-perm", "rseed": 1}},
+        {"op": "loc", "tag": "corpus-series-one", "in": {"name": "modal_location", "a": [None, None, -2.5], "c": 1.0, "exact": True, "rep": "series-sub", "rseed": 2}},
+        {"op": "loc", "tag": "corpus-series-one", "in": {"name": "weighted_median", "a": [None, 5.0, None], "w": [1.0, 2.0, 1.0], "c": 1.0, "exact": True, "rep": "series-perm", "wrep": "series-perm", "rseed": 3}},
+        {"op": "loc", "tag": "corpus-series-one", "in": {"name": "weighted_median", "a": [7.0], "w": [2.0], "c": 1.0, "exact": True, "rep": "series-sub", "wrep": "series-sub", "rseed": 4}},
+        {"op": "smooth", "tag": "corpus-series-one", "in": {"name": "rolling_median", "x": [5.0], "width": 3, "malformed": False, "exact": True, "rep": "series-sub", "rseed": 5}},
+        # biweight midvariance about a given centre, as hmm.py (`initial=0`) calls it on data that are not centred
+        {"op": "scale", "tag": "corpus-initial", "in": {"name": "bivar", "a": [1.0, 2.0, 4.0, 4.5, 7.0, 3.0], "c": 1.0, "k": 2.0, "exact": False, "initial": 0}},
+        {"op": "loc", "tag": "corpus-initial", "in": {"name": "biweight_location", "a": [-1.0, 2.0, 4.0, 4.5, 7.0, 3.0, 3.5], "c": 1.0, "exact": False, "initial": 0.0}},
     ]
     return c
 
@@ -336,6 +491,11 @@ def gen_cases(rng, tier):
             cases.append({"op": "loc", "tag": name + "-big", "in": {"name": name, "a": a, "c": 1.0, "exact": False}})
         else:
             cases.append({"op": "scale", "tag": name + "-big", "in": {"name": name, "a": a, "c": 1.0, "k": 2.0, "exact": False}})
+    # Qn: the finite-sample factor changes at n = 10 | 11 and n = 399 | 400
+    for nn in (10, 11, 399, 400):
+        a, ex = gen_vec(rng, nn, rng.choice(["float", "dyadic", "small"]))
+        cases.append({"op": "scale", "tag": "qn-boundary",
+                      "in": add_reps(rng, {"name": "qn", "a": a, "c": gen_shift(rng, ex), "k": gen_scale(rng, ex), "exact": ex})})
     if _finding_registered("savgol_zero_denominator"):
         cases += zero_denominator_cases(rng, 6 * mult)
     # malformed stream: unequal lengths, zero total weight
@@ -368,20 +528,90 @@ def _num(v):
     return v if math.isfinite(v) else None
 
 
+MAD_TO_SD = 1.4826
+
+
+def _rep(arr, rep, seed=0):
+    """the float64 vector `arr` in another input representation, values unchanged; a plain (writable, contiguous)
+    ndarray when the representation cannot hold the values (NaN as integers, doubles that are no float32)"""
+    import random
+    import numpy as np
+    import pandas as pd
+
+    n = len(arr)
+    if rep in (None, "ndarray"):
+        return arr.copy()
+    if rep == "list":
+        return [float(v) for v in arr]
+    if rep == "tuple":
+        return tuple(float(v) for v in arr)
+    if rep == "object":   # missing values as None in an object column
+        return np.array([None if v != v else float(v) for v in arr], dtype=object)
+    if rep == "int":
+        if n and np.all(np.isfinite(arr)) and np.all(arr == np.round(arr)) and np.all(np.abs(arr) < 2.0 ** 53):
+            return arr.astype(np.int64)
+        return arr.copy()
+    if rep == "float32":
+        a32 = arr.astype(np.float32)
+        return a32 if np.array_equal(a32.astype(float), arr, equal_nan=True) else arr.copy()
+    if rep == "readonly":
+        b = arr.copy()
+        b.flags.writeable = False
+        return b
+    if rep == "strided":   # every second cell of a larger buffer
+        big = np.full(2 * n + 1, 7.25)
+        big[1::2] = arr
+        return big[1::2]
+    if rep == "series":
+        return pd.Series(arr.copy())
+    rng = random.Random(seed)
+    if rep == "series-perm":   # labels are a permutation of the positions (a table sorted by another column)
+        idx = list(range(n))
+        rng.shuffle(idx)
+        if n >= 2 and idx == sorted(idx):
+            idx = idx[1:] + idx[:1]
+        return pd.Series(arr.copy(), index=idx)
+    if rep == "series-sub":   # a filtered subset of a longer Series: labels increasing, not 0..n-1
+        big, mask = [123.5], [False]
+        for v in arr:
+            for _ in range(rng.choice([0, 1, 1, 2])):
+                big.append(-77.0)
+                mask.append(False)
+            big.append(v)
+            mask.append(True)
+        return pd.Series(np.array(big, dtype=float))[np.array(mask)]
+    raise ValueError(rep)
+
+
 def run_impl(case):
+    import inspect
     import numpy as np
     from cnvlib import descriptives as D, smoothing as S
 
     op, i = case["op"], case["in"]
     name = i["name"]
+    rep, wrep, rseed = i.get("rep"), i.get("wrep"), i.get("rseed", 0)
+
+    def A(arr):
+        return _rep(arr, rep, rseed)
+
+    wobj = []
+
+    def W(w):
+        if i.get("reuse_w"):
+            if not wobj:
+                wobj.append(_rep(w, wrep, rseed + 1))
+            return wobj[0]
+        return _rep(w, wrep, rseed + 1)
+
     if op == "loc":
         a = _arr(i["a"])
         c = i["c"]
         out = {}
         if name == "weighted_median":
             w = _arr(i["w"])
-            out["v"] = _num(D.weighted_median(a.copy(), w.copy()))
-            out["v_shift"] = _num(D.weighted_median(a + c, w.copy()))
+            out["v"] = _num(D.weighted_median(A(a), W(w)))
+            out["v_shift"] = _num(D.weighted_median(A(a + c), W(w)))
             if len(a) == len(w):
                 out["order"] = [int(k) for k in a[~np.isnan(a)].argsort()]
         elif name == "modal_location":
@@ -390,23 +620,35 @@ def run_impl(case):
                 from scipy import stats
                 sarr = np.sort(clean)
                 out["dens"] = [float(y) for y in stats.gaussian_kde(sarr).evaluate(sarr)]
-            out["v"] = _num(D.modal_location(a.copy()))
-            out["v_shift"] = _num(D.modal_location(a + c))
+            out["v"] = _num(D.modal_location(A(a)))
+            out["v_shift"] = _num(D.modal_location(A(a + c)))
+        elif "initial" in i:
+            # keyword only: the decorator's wrapper takes no positional options (cnary._guess_average_depth, dead
+            # code, passes one: /verif/proposed_fixes/C19-decorator-positional-options.md)
+            out["v"] = _num(D.biweight_location(A(a), initial=i["initial"]))
+            out["v_shift"] = _num(D.biweight_location(A(a + c), initial=i["initial"] + c))
         else:
-            out["v"] = _num(D.biweight_location(a.copy()))
-            out["v_shift"] = _num(D.biweight_location(a + c))
+            out["v"] = _num(D.biweight_location(A(a)))
+            out["v_shift"] = _num(D.biweight_location(A(a + c)))
         return out
     if op == "scale":
         f = getattr(D, SCALE[name])
         a = _arr(i["a"])
         c, k = i["c"], i["k"]
         div = SQRT_PI if name == "gapper" else 1.0
+        kw, kw_c, kw_k = {}, {}, {}
+        if "initial" in i:
+            kw, kw_c, kw_k = {"initial": i["initial"]}, {"initial": i["initial"] + c}, {"initial": i["initial"] * k}
+        if i.get("sd") is False:
+            # the raw MAD, brought to the scale of the default call by the harness
+            kw = kw_c = kw_k = {"scale_to_sd": False}
+            div = 1.0 / MAD_TO_SD
         out = {}
         if name in ("wmad", "wstd"):
             w = _arr(i["w"])
-            out["v"] = _num(f(a.copy(), w.copy()) / div)
-            out["v_shift"] = _num(f(a + c, w.copy()))
-            out["v_scale"] = _num(f(a * k, w.copy()))
+            out["v"] = _num(f(A(a), W(w), **kw) / div)
+            out["v_shift"] = _num(f(A(a + c), W(w), **kw_c) / div)
+            out["v_scale"] = _num(f(A(a * k), W(w), **kw_k) / div)
             if name == "wmad" and len(a) == len(w):
                 keep = ~np.isnan(a)
                 ac, wc = a[keep], np.nan_to_num(w[keep], nan=0.0)
@@ -416,23 +658,36 @@ def run_impl(case):
                     out["v_med"] = _num(med)
                     out["order2"] = [int(x) for x in np.abs(ac - med).argsort()]
         else:
-            out["v"] = _num(f(a.copy()) / div)
-            out["v_shift"] = _num(f(a + c) / div)
-            out["v_scale"] = _num(f(a * k) / div)
+            out["v"] = _num(f(A(a), **kw) / div)
+            out["v_shift"] = _num(f(A(a + c), **kw_c) / div)
+            out["v_scale"] = _num(f(A(a * k), **kw_k) / div)
         return out
     if op == "smooth":
         x = np.array(i["x"], dtype=float)
         width = i["width"]
+        w = np.array(i["w"], dtype=float) if "w" in i else None
         out = {}
+        if i.get("guess"):
+            # the width the real code would choose (kaiser does so itself; smooth_log2 hands it to savgol)
+            width = S.guess_window_size(A(x), None if w is None else W(w))
+            out["width_used"] = int(width)
+            if width != int(width):
+                raise TypeError(f"guess_window_size returned {width!r}")
+        elif i.get("wtype") == "np" and width is not None:
+            width = np.int64(width) if int(width) == width and not isinstance(width, float) else np.float64(width)
         if name == "rolling_median":
-            y = S.rolling_median(x, width)
+            y = S.rolling_median(A(x), width)
         elif name == "kaiser":
             if len(x) >= 2 and not i.get("malformed"):
                 wing = S._width2wing(width, x)
                 out["window"] = [float(v) for v in np.kaiser(2 * wing + 1, 14)]
-            y = S.kaiser(x, width)
+            y = S.kaiser(A(x)) if i.get("guess") else S.kaiser(A(x), width)
         else:
-            ww, od, nit = i["window_width"], i["order"], i["n_iter"]
+            if i.get("implicit"):
+                dflt = {k: p.default for k, p in inspect.signature(S.savgol).parameters.items()}
+                ww, od, nit = dflt["window_width"], dflt["order"], dflt["n_iter"]
+            else:
+                ww, od, nit = i["window_width"], i["order"], i["n_iter"]
             if len(x) >= 2 and not i.get("malformed"):
                 from scipy.signal import savgol_coeffs
                 tw = width if width is not None else nit * ww
@@ -441,10 +696,15 @@ def run_impl(case):
                 od2 = min(od, ww2 // 2)
                 out["window"] = [float(v) for v in savgol_coeffs(ww2, od2)]
                 out["geom"] = [int(wing), int(ww2), int(od2)]
-            if name == "savgol":
-                y = S.savgol(x, width, None, ww, od, nit)
+            if i.get("implicit"):
+                if name == "savgol":
+                    y = S.savgol(A(x)) if width is None else S.savgol(A(x), width)
+                else:
+                    y = S.savgol(A(x), weights=W(w)) if width is None else S.savgol(A(x), width, weights=W(w))
+            elif name == "savgol":
+                y = S.savgol(A(x), width, None, ww, od, nit)
             else:
-                y = S.savgol(x, width, np.array(i["w"], dtype=float), ww, od, nit)
+                y = S.savgol(A(x), width, W(w), ww, od, nit)
         out["y"] = [_num(v) for v in y]
         return out
     raise ValueError(op)
@@ -465,6 +725,8 @@ def to_line(case, impl):
     if op in ("loc", "scale"):
         inp["a"] = [_fr(v) for v in i["a"]]
         inp["c"] = frac(i["c"])
+        if "initial" in i:
+            inp["initial"] = frac(i["initial"])
         if "k" in i:
             inp["k"] = frac(i["k"])
         if "w" in i:
@@ -477,7 +739,7 @@ def to_line(case, impl):
                 inp["dens"] = [frac(v) for v in impl["dens"]]
     else:
         inp["x"] = [frac(v) for v in i["x"]]
-        inp["width"] = _fr(i["width"])
+        inp["width"] = _fr(impl["width_used"] if i.get("guess") and not err else i["width"])
         for key in ("window_width", "order", "n_iter"):
             if key in i:
                 inp[key] = i[key]
